@@ -1747,3 +1747,245 @@ def removal_planned_in_order(ctx, p):
                     ctx.ob(p + 'c removal-position-is-the-count-of-earlier-keyed-changes %s' % cb_.path, 'K9-provenance', cb_.path,
                            'a DereferenceChildren is built with the length of the set\'s keyed change list at that moment', ok, '', cb_.loc(bi))
     ctx.ob(p + 'c0 removal-constructions', 'anchor', '-', 'the places that build NodeChange::DereferenceChildren were found', n9 >= 1, 'found %d' % n9)
+
+
+def requeued_change_set_is_flagged(ctx, p):
+    """C11: a change set that the log worker puts (back) onto the commit queue - the postponed tree removals - is looked at again
+    when its turn comes: process_commits runs the reader-lock test and the queue scan only for change sets whose
+    `check_for_deferral` is set, so every Commit pushed by the worker's family carries a change set with the flag constant true
+    (made so in the aggregate, assigned before the push, or handed in by callers whose argument is)."""
+    import symterm
+    F = ctx.F
+    pc = ctx.body('db::DbInner::process_commits')
+    if not pc:
+        return
+    adt = F.adts.get('db::CommitChangeSet')
+    cadt = F.adts.get('db::Commit')
+    if not adt or not cadt:
+        ctx.ob(p + '0 requeue-anchor', 'anchor', pc.path, 'CommitChangeSet / Commit layouts known', False, '')
+        return
+    fields = [f['name'] for f in adt['variants'][0]['fields']]
+    cfields = [f['name'] for f in cadt['variants'][0]['fields']]
+    if 'check_for_deferral' not in fields or 'changeset' not in cfields:
+        ctx.ob(p + '0 requeue-anchor', 'anchor', pc.path, 'CommitChangeSet.check_for_deferral and Commit.changeset exist', False, str(fields))
+        return
+    fi, ci = fields.index('check_for_deferral'), cfields.index('changeset')
+    fam = lib.family(F, pc.path)
+    fam_paths = set(b.path for b in fam)
+    tbs = {}
+
+    def tb_of(b):
+        if b.path not in tbs:
+            tbs[b.path] = symterm.TermBuilder(F, b, depth=0)
+        return tbs[b.path]
+
+    def field_writes(b, l):
+        """[(block, value-term)] of assignments to <l>.check_for_deferral, and blocks that overwrite l as a whole"""
+        tb = tb_of(b)
+        fw, whole = [], []
+        for bi, kind, pl in tb.defs.get(l, []):
+            if kind == 'partial' and pl.get('k') == 'assign' and any(isinstance(x, str) and x.endswith('.check_for_deferral') for x in pl['p'][1:]):
+                fw.append((bi, tb.rvalue(pl['r'])))
+            elif kind != 'partial':
+                whole.append(bi)
+        return fw, whole
+
+    def flagged(b, operand, site, depth=0):
+        """(ok, why) - is the flag of the change set in `operand` constant true when control reaches `site`?"""
+        tb = tb_of(b)
+        pl = op_place(operand)
+        if pl is None:
+            return False, 'not a place'
+        # follow plain moves to the local that holds the value
+        l = pl[0]
+        for _ in range(6):
+            ds = tb.defs.get(l, [])
+            whole = [d for d in ds if d[1] == 'rv']
+            if len(pl) == 1 and len(whole) == 1 and whole[0][2]['k'] == 'use' and op_place(whole[0][2]['a'][0]) is not None and not (1 <= l <= b.argc):
+                pl = op_place(whole[0][2]['a'][0])
+                l = pl[0]
+            else:
+                break
+        if len(pl) > 1:
+            return False, 'a projection of another value (%s)' % (pl,)
+        fw, whole = field_writes(b, l)
+        # the last write of the flag before the site
+        if fw:
+            for bi, v in fw:
+                if symterm.strip_casts(v) != symterm.K(1) or not (b.dominates(bi, site) or bi == site):
+                    continue
+                others = (set(x for x, _ in fw) | set(whole)) - {bi}
+                between = [o for o in others if o in b.reaches(bi) and (site in b.reaches(o) or o == site)]
+                if not between:
+                    return True, 'assigned true at %s' % b.loc(bi)
+            return False, 'the flag is assigned, but not constant true on every path to the push'
+        ds = [d for d in tb.defs.get(l, []) if d[1] != 'partial']
+        if len(ds) == 1 and ds[0][1] == 'rv' and ds[0][2]['k'] == 'agg' and ds[0][2].get('ak') == 'Adt:db::CommitChangeSet':
+            v = tb.operand(ds[0][2]['a'][fi])
+            return (symterm.strip_casts(v) == symterm.K(1)), 'built with check_for_deferral = %s at %s' % (symterm.show(v), b.loc(ds[0][0]))
+        if 1 <= l <= b.argc and not ds:
+            if depth > 3:
+                return False, 'call chain too deep'
+            callers = [(cb, bi) for cb in fam for bi, t in cb.calls() if b.path in call_names(t)]
+            if not callers:
+                return False, 'a parameter of %s, which has no caller in the log worker family' % b.path
+            for cb, bi in callers:
+                ok, why = flagged(cb, cb.term(bi)['a'][l - 1], bi, depth + 1)
+                if not ok:
+                    return False, 'argument of the call at %s: %s' % (cb.loc(bi), why)
+            return True, 'every caller hands in a flagged change set'
+        return False, 'made by %s' % ([symterm.show(tb.rvalue(d[2]) if d[1] == 'rv' else tb.call(d[2]))[:80] for d in ds] or 'nothing visible')
+
+    n = 0
+    for b in fam:
+        for site in queue_push_sites(b):
+            t = b.term(site)
+            n += 1
+            arg = t['a'][1] if len(t['a']) > 1 else None
+            ok, why = False, 'pushed value not visible'
+            if arg is not None and op_place(arg) is not None:
+                tb = tb_of(b)
+                l = op_place(arg)[0]
+                for _ in range(6):      # follow plain moves back to the local the Commit was built in
+                    dd = tb.defs.get(l, [])
+                    if len(dd) == 1 and dd[0][1] == 'rv' and dd[0][2]['k'] == 'use' and op_place(dd[0][2]['a'][0]) is not None and len(op_place(dd[0][2]['a'][0])) == 1:
+                        l = op_place(dd[0][2]['a'][0])[0]
+                    else:
+                        break
+                ds = [d for d in tb.defs.get(l, []) if d[1] == 'rv' and d[2]['k'] == 'agg' and d[2].get('ak') == 'Adt:db::Commit']
+                if len(ds) == 1:
+                    ok, why = flagged(b, ds[0][2]['a'][ci], ds[0][0])
+                else:
+                    why = 'the pushed Commit is not built next to the push'
+            ctx.ob(p + ' requeued-change-set-is-checked-again %s' % b.path, 'K4-provenance', b.path,
+                   'a change set the log worker pushes onto the commit queue (postponed tree removals) has check_for_deferral constant true: the reader-lock test and the queue scan run again at its next turn',
+                   ok, why, b.loc(site))
+    ctx.ob(p + '0 requeue-anchor', 'anchor', pc.path, 'the log worker family pushes onto the commit queue in at least two places (whole-commit and split deferral)', n >= 2, 'push sites: %d' % n)
+
+
+def chain_link_markers_agree(ctx, p):
+    """C06 / C14: whether an entry of a value table carries a link to a next part is decided from its two marker bytes. Every
+    place that follows such a link (reader of a value, writer that reuses / trims / clears the old chain, validators) must accept
+    the same set of markers - a marker the reader follows and the releasing side does not (or the reverse) leaves parts of a chain
+    behind or walks into foreign slots. Decided on constants: the set of two-byte markers compared `==` in the guards of each
+    `read_next` site (through the predicate helpers of Entry), grouped into link families by overlap; inside a family all sets are
+    equal; every marker written by an Entry method is recognised by a family."""
+    F = ctx.F
+    READ_NEXT = ['re:^table::Entry::<B>::read_next$', 're:^table::Entry.*::read_next$']
+    def marker(o):
+        if isinstance(o, dict) and o.get('o') == 'k' and 's' in o and o.get('ty', '').replace("'static ", '') in ('&[u8]', '&&[u8]') and len(o['s']) == 2:
+            return o['s']
+        return None
+    def consts_of_body(b):
+        out = set()
+        for bi in b.normal_blocks():
+            for s in b.blocks[bi]['s']:
+                if s['k'] == 'assign':
+                    for a in s['r'].get('a', []) or []:
+                        m = marker(a)
+                        if m:
+                            out.add(m)
+            t = b.term(bi)
+            if t['k'] == 'call':
+                for a in t['a']:
+                    m = marker(a)
+                    if m:
+                        out.add(m)
+        return out
+    memo = {}
+    def predicate_markers(name, depth=0):
+        """markers compared inside a crate predicate (a function returning bool), through the predicates it calls"""
+        if name in memo:
+            return memo[name]
+        memo[name] = set()
+        b = F.bodies.get(name)
+        if b is None or depth > 4 or str(b.locals[0]) != 'bool':
+            return memo[name]
+        out = set(consts_of_body(b))
+        for _, t in b.calls():
+            for n in call_names(t):
+                if n in F.bodies and n != name:
+                    out |= predicate_markers(n, depth + 1)
+        memo[name] = out
+        return out
+    sites = []
+    looked_at = set()
+    for path, b in sorted(F.bodies.items()):
+        if not path.startswith('table::'):
+            continue
+        rn = [s for s in b.call_sites(*READ_NEXT) if s in b.normal_blocks()]
+        if not rn:
+            continue
+        # the marker tests of this body: two-way branches whose condition compares markers (directly or through Entry predicates)
+        tests = []
+        for sw in sorted(b.normal_blocks()):
+            t = b.term(sw)
+            if t['k'] != 'switch' or op_place(t['a']) is None or t.get('vals') != [0] or len(t['ts']) != 2:
+                continue
+            sl = backward_slice(b, [op_place(t['a'])])
+            ms = set()
+            for c in sl.consts:
+                m = marker(c)
+                if m:
+                    ms.add(m)
+            for bi, ct in sl.call_sites:
+                for a in ct['a']:
+                    m = marker(a)
+                    if m:
+                        ms.add(m)
+            for l in sl.locals:
+                for d in b.defs().get(l, []):
+                    if d[2] == 'assign' and d[3]['r']['k'] == 'use':
+                        m = marker(d[3]['r']['a'][0])
+                        if m:
+                            ms.add(m)
+            for c in sl.calls:
+                ms |= predicate_markers(c)
+            if ms:
+                # a branch on a flag local (several definitions: `linked = true / false / a == M`) does not stand in the way of the
+                # tests that set the flag; the path search knows the constant the flag was last set to
+                root = op_place(t['a'])[0]
+                for _ in range(4):
+                    dd = b.defs().get(root, [])
+                    if len(dd) == 1 and dd[0][2] == 'assign' and dd[0][3]['r']['k'] == 'use' and op_place(dd[0][3]['r']['a'][0]) is not None:
+                        root = op_place(dd[0][3]['r']['a'][0])[0]
+                    else:
+                        break
+                flag = len(b.defs().get(root, [])) > 1
+                tests.append((sw, t['ts'][1], frozenset(ms), flag))
+                looked_at |= ms
+        for s in rn:
+            acc = set()
+            for sw, nz, ms, flag in tests:
+                others = set(x[0] for x in tests if not x[3]) - {sw}
+                # accepted: the true edge of the test reaches the link read without needing another marker test
+                if s == nz or b.find_path([nz], {s}, removed=others | {sw}) is not None:
+                    acc |= ms
+            sites.append((b, s, frozenset(acc)))
+    guarded = [x for x in sites if x[2]]
+    ctx.ob(p + '0 link-read-anchor', 'anchor', 'table::', 'at least two places in table.rs read a next-slot link under a marker test (reader and chain writer) and at least four read one at all', len(guarded) >= 2 and len(sites) >= 4,
+           '%s' % [(b.path, sorted(m.encode('latin-1').hex() for m in ms)) for b, s, ms in sites])
+    # families by overlap
+    fams = []
+    for x in guarded:
+        for f in fams:
+            if any(x[2] & y[2] for y in f):
+                f.append(x)
+                break
+        else:
+            fams.append([x])
+    for f in fams:
+        ref = max((x[2] for x in f), key=len)
+        for b, s, ms in f:
+            ctx.ob(p + ' link-markers-agree %s' % b.path, 'K9-agreement', b.path,
+                   'the markers under which this function follows a next-slot link are those under which every other follower of the same kind of link does',
+                   ms == ref, 'accepts {%s}, a sibling accepts {%s}' % (', '.join(sorted(m.encode('latin-1').hex() for m in ms)), ', '.join(sorted(m.encode('latin-1').hex() for m in ref))), b.loc(s))
+    # written markers are known to a family
+    written = set()
+    for path, b in sorted(F.bodies.items()):
+        if path.startswith('table::Entry') and any(call_matches(t, ['re:write_slice$']) for _, t in b.calls()):
+            written |= consts_of_body(b)
+    known = looked_at
+    ctx.ob(p + 'w written-markers-are-followed', 'K9-agreement', 'table::Entry', 'every marker an Entry method writes is one the link followers test for (accepting or rejecting)',
+           bool(written) and written <= known, 'written {%s} recognised {%s}' % (sorted(m.encode('latin-1').hex() for m in written), sorted(m.encode('latin-1').hex() for m in known)))
+    ctx.info[p + ' link families'] = [[(b.path, sorted(m.encode('latin-1').hex() for m in ms)) for b, s, ms in f] for f in fams]
